@@ -134,10 +134,13 @@ def law_of(spec) -> ref.Law:
         # OpenTURNS integrates the moments of a CompositeDistribution numerically: bound B24
         law.numeric_moments = True
         law.moment_error = 0.0
+        law.composite = True
         law.derived = True
     if "lower_bound" in opts or "upper_bound" in opts:
+        composite = getattr(law, "composite", False)
         law = ref.truncated(law, opts.get("lower_bound"), opts.get("upper_bound"))
         law.derived = True
+        law.composite = composite
     return law
 
 
